@@ -1,6 +1,7 @@
 package main
 
 import (
+	"os"
 	"crypto/sha256"
 	"fmt"
 	"sort"
@@ -249,9 +250,44 @@ func partC09(a *hcli.Args, rep *report.Report, univName string, u *schema.Univer
 	// ---- 4. Equal values encode identically (incl. after warm-up) ; supplementary: fresh maps
 	s4 := rep.S("equal-values-same-bytes")
 	s4.Bounds = "per map-bearing wrapper: reduced-alphabet values, their copies and map-insertion-order rebuilds; Equal pairs (zero signs aside) must encode identically in all 5 formats, also after a warm-up of unrelated encodes; supplementary: each value re-encoded 64x from freshly built Go maps, digests compared across processes"
+	// ---- 4a. one process per map-iteration start: every process encodes the same pool once
 	digest := sha256.New()
+	s5 := rep.S("map-iteration-starts")
+	s5.Bounds = "every map-bearing wrapper x reduced-alphabet values x 5 formats encoded once in every shard process; the driver runs one process per map-iteration start (VERIF_MAPROT = shard index: 0..15 quick, 0..63 thorough; runtime overlay fixes hash seeds, so the iteration order of every Go map is a function of its contents and the start) and the digests of all processes must agree"
+	for _, w := range u.Wrappers {
+		if !strings.Contains(w.Name, "M") {
+			continue
+		}
+		for _, v := range schema.Alphabet(w, true) {
+			if v.HasNaN() {
+				continue
+			}
+			ptr, err := goValue(v)
+			if err != nil {
+				report.Internal("bridge: %v", err)
+			}
+			for _, f := range Formats {
+				out, err := encode(f, asMarshaler(ptr))
+				s5.Evaluations++
+				s5.Transitions++
+				s5.Traces++
+				if err == nil {
+					fmt.Fprintf(digest, "%s|%s|%s\n", w.Name, f, out)
+				}
+			}
+		}
+		if a.Shard == 0 {
+			s5.States++
+		}
+		s5.Class("encoded:" + w.Name[:2])
+	}
+	if os.Getenv("VERIF_MAPROT") != "" {
+		s5.Class("iteration-start-owned")
+	} else {
+		rep.Note("VERIF_MAPROT not set: map iteration starts are random in this run")
+	}
 	for wi, w := range u.Wrappers {
-		common := wi < 4
+		common := false
 		if !strings.Contains(w.Name, "M") {
 			continue
 		}
@@ -286,9 +322,7 @@ func partC09(a *hcli.Args, rep *report.Report, univName string, u *schema.Univer
 						}
 						if vi == 0 && rpt == 0 {
 							first = out
-							if common && a.Shard >= 0 {
-								fmt.Fprintf(digest, "%s|%s|%s\n", w.Name, f, out)
-							}
+
 						} else if out != first {
 							rep.Fail(fmt.Sprintf("%s det equal-values-differ %s %s", a.Gen, f, leaf(v.Dev)),
 								fmt.Sprintf("type %s value %s format %s: an Equal copy (variant %d, repetition %d) encodes as %q, the original as %q", w.Name, v, f, vi, rpt, out, first), nil)
